@@ -1,3 +1,4 @@
 import Dalek.Props.C03.Formulas
 import Dalek.Props.C03.History
 import Dalek.Props.C03.Vector
+import Dalek.Props.C01.VecFormulas
